@@ -75,6 +75,14 @@ theorem any_filter_spelling_compiles (pr : Surface.Prec) (hpr : Surface.precOK p
     Lex.compileText pr ⟨Lex.dflt, uw⟩ text = some ⟨segs, false⟩ :=
   Lemmas.rfc_filter_spelling_compiles pr hpr uw segs text h
 
+/-- **From text to nodelist**: for every RFC spelling `text` of a well-typed query `segs`, compiling the text (lexer,
+    literal decoding, parser models) and evaluating the result (evaluator model) yields exactly the RFC 9535 nodelist
+    of `segs` on every document — values, order, duplicates, locations and normalized paths. -/
+theorem spelled_query_selects_rfc_nodelist (pr : Surface.Prec) (hpr : Surface.precOK pr = true) (uw : Char → Bool) (rx : Rx)
+    (segs : List Seg) (text : Str) (doc extra : J) (h : RfcSpellF.QuerySpellF segs text) (hwt : Rfc.wtSegs segs = true) :
+    ∃ p, Lex.compileText pr ⟨Lex.dflt, uw⟩ text = some p ∧ RepresentsAll (finditer rx p doc extra) (Rfc.query rx segs doc) :=
+  ⟨⟨segs, false⟩, Lemmas.rfc_filter_spelling_compiles pr hpr uw segs text h, filter_refines_rfc rx segs doc extra hwt⟩
+
 /-! ### Non-vacuity -/
 example : Rfc.wtSegs [.child [.filter (.infix (.infix (.self [.child [.name ['a']]]) .lt (.int 2)) .and
     (.not (.func "match".toList [.self [.child [.name ['s']]], .str "a.*".toList])))]] = true := by decide
